@@ -152,6 +152,7 @@ fn main() {
                     std::iter::once(root_id.clone()).chain(commits.iter().map(|c| c.id().clone())).collect()
                 };
                 let mut snaps: Vec<Snap> = vec![];
+                let mut level_obs: Vec<String> = vec![];
                 let mut max_levels = 1usize;
                 let mut concurrent = false;
                 let mut reindexed = false;
@@ -196,6 +197,7 @@ fn main() {
                         // the new commits in the order they were written (each write indexes
                         // its commit: repo.rs add_heads / mutable.rs add_commit_data)
                         let mut order = dagrepo::index_order(&repo, &known(&commits));
+                        let before: Vec<usize> = levels(&repo).iter().map(|&x| x as usize).collect();
                         let mut tx = repo.start_transaction();
                         for m in k..k + size {
                             write(tx.repo_mut(), &mut commits, &mut last_cid, m);
@@ -206,6 +208,13 @@ fn main() {
                             snaps.push(snapshot(tx.repo(), None, order, &mut rng, 4));
                         }
                         repo = tx.commit("c18").block_on().unwrap();
+                        let after: Vec<usize> = levels(&repo).iter().map(|&x| x as usize).collect();
+                        level_obs.push(format!(
+                            "({}, {}, {})",
+                            dagrepo::coq_nats(&before),
+                            size,
+                            dagrepo::coq_nats(&after)
+                        ));
                     }
                     k += size;
                     max_levels = max_levels.max(levels(&repo).len());
@@ -214,6 +223,18 @@ fn main() {
                         snaps.push(snapshot(repo.as_ref(), Some(&repo), order, &mut rng, 4));
                     }
                     let _ = txno;
+                }
+                // an empty transaction leaves the segment stack alone
+                if rng.chance(1, 4) {
+                    let before: Vec<usize> = levels(&repo).iter().map(|&x| x as usize).collect();
+                    let tx = repo.start_transaction();
+                    let r2 = tx.commit("c18 empty").block_on().unwrap();
+                    let after: Vec<usize> = levels(&r2).iter().map(|&x| x as usize).collect();
+                    level_obs.push(format!(
+                        "({}, 0, {})",
+                        dagrepo::coq_nats(&before),
+                        dagrepo::coq_nats(&after)
+                    ));
                 }
                 // final: as committed, freshly loaded from disk, and (sometimes) fully reindexed
                 let order = dagrepo::index_order(&repo, &known(&commits));
@@ -230,16 +251,17 @@ fn main() {
                     let order = dagrepo::index_order(&re, &known(&commits));
                     snaps.push(snapshot(re.as_ref(), Some(&re), order, &mut rng, 6));
                 }
-                (snaps, max_levels, concurrent, reindexed)
+                (snaps, level_obs, max_levels, concurrent, reindexed)
             });
             let (term, nontrivial, shape_s) = match res {
-                Some((snaps, max_levels, concurrent, reindexed)) => {
+                Some((snaps, level_obs, max_levels, concurrent, reindexed)) => {
                     let n_max = snaps.iter().map(|s| s.n).max().unwrap_or(0);
                     let merges = snaps.iter().map(|s| s.merges).max().unwrap_or(0);
                     let nq: usize = snaps.iter().map(|s| s.queries).sum();
                     let term = format!(
-                        "(mk_case [{}] false)%nat",
-                        snaps.iter().map(|s| s.term.clone()).collect::<Vec<_>>().join("; ")
+                        "(mk_case [{}] [{}] false)%nat",
+                        snaps.iter().map(|s| s.term.clone()).collect::<Vec<_>>().join("; "),
+                        level_obs.join("; ")
                     );
                     let shape_s = format!(
                         "n{} levels{} {}{}{}",
@@ -253,7 +275,7 @@ fn main() {
                 }
                 None => {
                     ctx.panicked();
-                    ("(mk_case [] true)".to_string(), false, "panic".to_string())
+                    ("(mk_case [] [] true)".to_string(), false, "panic".to_string())
                 }
             };
             ctx.emit(i, term, nontrivial, shape_s.trim());
